@@ -757,18 +757,223 @@ def conversion_scan(ops, field_info) -> list[str]:
     return sorted(set(out))
 
 
+# ------------------------------------------------------------------------------------------------
+# equality of the static part = the jit cache key (fail closed)
+#
+# A jit that takes the operator as ARGUMENT keys its cache on the static part of the operator: the
+# treedef (which holds the values of the static fields, compared with ==) and the non-array leaves.  Two
+# operators that differ in a static field must therefore compare unequal there, or the second one silently
+# runs the function compiled for the first.  Structural requirement: every dataclass field of every
+# operator class, and every field of every dataclass stored in a static field (ConfigState), takes part in
+# the comparison (compare=True), the stored dataclasses use the generated __eq__ (eq=True, no hand-written
+# __eq__/__ne__), and no operator class of furax overrides __eq__/__ne__.
+# Regenerated into Gen/FieldTable.v (gen_field_compare, gen_static_records); Props/C18.v decides
+# all_compared on them, and Lemmas/PytreeRegL.v proves that then key equality implies equal field values.
+
+STATIC_RECORD_KINDS = {'KConfig'}
+
+
+def _defines_in_source(k, names) -> list[str]:
+    node = class_ast(k)
+    return [n.name for n in node.body if isinstance(n, (ast.FunctionDef, ast.AsyncFunctionDef)) and n.name in names] + [
+        t.id for n in node.body if isinstance(n, ast.Assign) for t in n.targets if isinstance(t, ast.Name) and t.id in names
+    ]
+
+
+def handwritten_eq_problem(rc) -> str | None:
+    """A hand-written __eq__ on a record stored in a static field is accepted only in the form
+        [if not isinstance(other, <cls>): return NotImplemented]
+        return <e1> and <e2> and ...
+    where the conjunction reads self.<f> and other.<f> for EVERY dataclass field f (so that no field is left
+    out of the cache key); anything else is refused."""
+    fn = method_ast(rc, '__eq__')
+    if [a.arg for a in fn.args.args] != ['self', 'other'] or fn.args.vararg or fn.args.kwarg or fn.args.kwonlyargs or fn.decorator_list:
+        return 'unexpected signature'
+    body = [n for n in fn.body if not (isinstance(n, ast.Expr) and isinstance(n.value, ast.Constant))]
+    if body and isinstance(body[0], ast.If):
+        g = body[0]
+        ok = (
+            not g.orelse and len(g.body) == 1 and isinstance(g.body[0], ast.Return) and ast.unparse(g.body[0].value) == 'NotImplemented'
+            and ast.unparse(g.test) == f'not isinstance(other, {rc.__name__})'
+        )
+        if not ok:
+            return f'guard not in the accepted form: {ast.unparse(g)[:80]!r}'
+        body = body[1:]
+    if len(body) != 1 or not isinstance(body[0], ast.Return) or not isinstance(body[0].value, ast.BoolOp) or not isinstance(body[0].value.op, ast.And):
+        return 'body is not a single `return a and b and ...`'
+    conj = body[0].value
+    for v in conj.values:
+        for n in ast.walk(v):
+            if isinstance(n, (ast.BoolOp, ast.IfExp, ast.Lambda)) or (isinstance(n, ast.UnaryOp) and isinstance(n.op, ast.Not)):
+                return f'conjunct with nested logic: {ast.unparse(v)[:80]!r}'
+    for g in dataclasses.fields(rc):
+        hits = [v for v in conj.values if any(is_self_attr(n) == g.name for n in ast.walk(v))]
+        both = [
+            v for v in hits
+            if any(isinstance(n, ast.Attribute) and isinstance(n.value, ast.Name) and n.value.id == 'other' and n.attr == g.name for n in ast.walk(v))
+        ]
+        if not both:
+            return f'field {g.name} is not compared (no conjunct reads both self.{g.name} and other.{g.name})'
+    return None
+
+
+def static_record_class(c, field: str):
+    """The class named by the annotation of a static field that stores a dataclass (KConfig -> ConfigState)."""
+    text = annotation_text(c, field).replace(' ', '')
+    for k in c.__mro__:
+        if field in k.__dict__.get('__annotations__', {}):
+            obj = vars(sys.modules[k.__module__]).get(text)
+            if not inspect.isclass(obj) or not dataclasses.is_dataclass(obj):
+                raise Tie(f'{c.__name__}.{field}: annotation {text!r} does not name a dataclass of the defining module')
+            return obj
+    raise Tie(f'{c.__name__}.{field}: annotation not found')
+
+
+def static_equality_scan(ops, field_info):
+    """-> (problems, compare flags per operator class, compare flags per dataclass stored in a static field)."""
+    problems: list[str] = []
+    per_class: dict[str, list[tuple[str, bool]]] = {}
+    records: dict[str, list[tuple[str, bool]]] = {}
+    seen = []
+    for c in ops:
+        for k in c.__mro__:
+            if k in seen or not is_furax(k):
+                continue
+            seen.append(k)
+            for name in _defines_in_source(k, {'__eq__', '__ne__'}):
+                problems.append(f'{k.__name__}.{name}: hand-written comparison on an operator class (the static part is the jit cache key)')
+        rows = []
+        kinds = {n: (st, kd) for n, st, kd in field_info.get(c.__name__, [])}
+        for f in dataclasses.fields(c):
+            cmp = f.compare is True
+            rows.append((f.name, cmp))
+            if not cmp:
+                problems.append(f'{c.__name__}.{f.name}: dataclass field declared compare={f.compare!r}')
+            st, kd = kinds.get(f.name, (False, None))
+            if st and kd in STATIC_RECORD_KINDS:
+                rc = static_record_class(c, f.name)
+                if rc.__name__ in records:
+                    continue
+                if not is_furax(rc):
+                    raise Tie(f'{c.__name__}.{f.name}: dataclass {rc.__name__} stored in a static field is defined outside furax')
+                params = getattr(rc, '__dataclass_params__', None)
+                if params is None or not params.eq:
+                    problems.append(f'{rc.__name__}: dataclass(eq=False) stored in the static field {c.__name__}.{f.name} (compared by identity)')
+                for k in rc.__mro__:
+                    if is_furax(k):
+                        for name in _defines_in_source(k, {'__eq__', '__ne__'}):
+                            why = 'not accepted' if name != '__eq__' or k is not rc else handwritten_eq_problem(rc)
+                            if why:
+                                problems.append(f'{k.__name__}.{name}: hand-written comparison on a dataclass stored in the static field {c.__name__}.{f.name}: {why}')
+                rrows = []
+                for g in dataclasses.fields(rc):
+                    gc = g.compare is True
+                    rrows.append((g.name, gc))
+                    if not gc:
+                        problems.append(
+                            f'{rc.__name__}.{g.name}: declared compare={g.compare!r} but {rc.__name__} is stored in the static field '
+                            f'{c.__name__}.{f.name}: two operators differing only there share one jit cache entry'
+                        )
+                records[rc.__name__] = rrows
+        per_class[c.__name__] = rows
+    return problems, per_class, records
+
+
+def gen_equality(ops, field_info) -> tuple[str, list[str], dict]:
+    problems, per_class, records = static_equality_scan(ops, field_info)
+
+    def table(d):
+        return clist([f'({cstr(c)}, {clist([f"({cstr(n)}, {str(b).lower()})" for n, b in rows])})' for c, rows in d.items()])
+
+    text = (
+        f'Definition gen_field_compare : ctable :=\n  {table(per_class)}.\n'
+        f'Definition gen_static_records : ctable :=\n  {table(records)}.\n'
+    )
+    return text, problems, records
+
+
+# ------------------------------------------------------------------------------------------------
+# reads of AMBIENT state (fail closed)
+#
+# An operator captures the solver configuration when it is built (InverseOperator.__init__ reads
+# Config.instance()).  Any later read of the active configuration (a context variable) - in mv or in any
+# other method - makes the result depend on what is active when the method RUNS: at call time for eager
+# application, at TRACE time (then frozen in the compiled function) under jit.  The scan flags every
+# reference, outside constructors, from the methods of the operator classes and from the module-level
+# functions of their modules, to the Config class, a contextvars.ContextVar, the config / contextvars / os
+# modules, or os.environ-like objects.
+
+AMBIENT_MODULES = {'contextvars', 'os', 'furax._base.config'}
+
+
+def _ambient_object(v) -> str | None:
+    import contextvars
+    import os
+
+    if isinstance(v, contextvars.ContextVar):
+        return f'context variable {v.name!r}'
+    if inspect.ismodule(v) and v.__name__ in AMBIENT_MODULES:
+        return f'module {v.__name__}'
+    if inspect.isclass(v) and is_furax(v) and v.__module__ == 'furax._base.config' and not dataclasses.is_dataclass(v):
+        return f'class {v.__name__} (active configuration)'
+    if v is os.environ or v is getattr(os, 'getenv', None):
+        return 'process environment'
+    if inspect.isfunction(v) and getattr(v, '__module__', '') == 'contextvars':
+        return f'contextvars.{v.__name__}'
+    return None
+
+
+def ambient_read_scan(ops) -> list[str]:
+    out: list[str] = []
+    seen_classes, modules = [], []
+    ctor = ('__init__', '__post_init__', '__check_init__')
+
+    def scan(fn, glob, where):
+        for n in ast.walk(fn):
+            if isinstance(n, ast.Name) and isinstance(n.ctx, ast.Load) and n.id in glob:
+                what = _ambient_object(glob[n.id])
+                if what:
+                    out.append(f'{where}: reads ambient state outside the constructor: {n.id} ({what})')
+
+    for c in ops:
+        for k in c.__mro__:
+            if k in seen_classes or not is_furax(k):
+                continue
+            seen_classes.append(k)
+            if k.__module__ not in modules:
+                modules.append(k.__module__)
+            glob = vars(sys.modules[k.__module__])
+            for fn in [n for n in class_ast(k).body if isinstance(n, (ast.FunctionDef, ast.AsyncFunctionDef))]:
+                if fn.name in ctor:
+                    continue
+                scan(fn, glob, f'{k.__name__}.{fn.name}')
+    for name in modules:
+        mod = sys.modules[name]
+        try:
+            tree = ast.parse(inspect.getsource(mod))
+        except (OSError, TypeError, SyntaxError) as e:
+            raise Tie(f'module {name}: no source for the ambient-state scan: {e}')
+        for fn in [n for n in tree.body if isinstance(n, (ast.FunctionDef, ast.AsyncFunctionDef))]:
+            scan(fn, vars(mod), f'module {name}: {fn.name}')
+    return sorted(set(out))
+
+
 def generate(gen_dir: Path) -> dict:
     import_all()
     objs = Objects()
     t1, reg_info, unregistered = gen_pytreereg(objs)
     t2, field_info = gen_fieldtable()
+    ops = all_operator_classes()
+    t3, eq_problems, records = gen_equality(ops, field_info)
+    t2 = t2 + t3
     gen_dir.mkdir(parents=True, exist_ok=True)
     (gen_dir / 'PytreeReg.v').write_text(t1)
     (gen_dir / 'FieldTable.v').write_text(t2)
-    ops = all_operator_classes()
     return {
         'registered': reg_info, 'unregistered': unregistered, 'fields': field_info, 'objects': objs.by_id, 'text': t1 + t2,
         'hidden_state': hidden_state_scan(ops), 'conversions': conversion_scan(ops, field_info),
+        'static_equality': eq_problems, 'static_records': {k: [n for n, _ in v] for k, v in records.items()},
+        'ambient_reads': ambient_read_scan(ops),
     }
 
 
